@@ -7,6 +7,8 @@ M1: documents of seeded random shapes with a distinct random value at every leaf
     strings up to r-1) are read by the real functions and every assignment leaf is compared at the path the rules give (and the
     leaf counts must agree); single-value corruptions (non-numeric / hexadecimal / padded / empty strings, negative, >= 2^64 or
     fractional numbers, wrong JSON types, scalars for lists) must be refused at reading or at witness creation.
+Beyond the property (leads only): CompileArtifacts.tla - save / crash / load histories of the build artifacts replayed on the real
+    SaveVerifierCircuitGroth / LoadGroth16* with crash points produced through the code's own write path.
 """
 import os
 from concurrent.futures import ThreadPoolExecutor
@@ -29,6 +31,14 @@ def run(ctx):
     with ThreadPoolExecutor(max_workers=nsh) as ex:
         for rr in ex.map(one, range(nsh)):
             ctx.absorb(rr, "c19")
+
+    # ---- beyond the listed property: the build artifacts written by cmd/compile.go and read by cmd/web-api.go ----------
+    ctx.tlc("CompileArtifacts", "CompileArtifacts.cfg", workers=2)
+    ctx.tlc("CompileArtifacts", "CompileArtifacts_resave.cfg", workers=2, expect_violation=True)
+    r = ctx.tlc("CompileArtifacts", "CompileArtifacts_emit.cfg", workers=1)
+    step = 1 if thorough else 7
+    rr = ctx.run_driver("artifacts", {"cases": os.path.join(r["dir"], "artifact_cases.json"), "from": ctx.seed % step, "step": step}, tag="artifacts", timeout=1800)
+    ctx.absorb_beyond(rr, "CompileArtifacts")
 
 
 def replay(ctx, rec):
